@@ -8,6 +8,7 @@ for ws in "$@"; do
     for f in $(git diff --name-only --diff-filter=U); do
       case "$f" in
         MANIFEST.json|known_findings.json|evidence/*.json|lean/ActixModel/Consts.lean) git checkout --ours -- "$f" 2>/dev/null; git add "$f";;
+        props/*.json) git checkout --theirs -- "$f" 2>/dev/null; git add "$f";;
         *) echo "UNRESOLVED $ws: $f";;
       esac
     done
